@@ -112,3 +112,31 @@ func VC17_Spawn() {
 	vAssert(p1.nextInnovNum == p2.nextInnovNum && p1.nextNodeId == p2.nextNodeId, "C17: spawned populations have the same counters")
 	vReach("end")
 }
+
+// bit-for-bit: the normalisation of expected offspring (a float sum over the population) must not depend on any
+// iteration order. Run in the IEEE model, where a sum accumulated in a different order rounds differently.
+func VC17_Normalisation_F() {
+	mk := func() *Population {
+		pop := newPopulation()
+		for si := 0; si < 3; si++ {
+			sp := NewSpecies(si + 1)
+			org := &Organism{Genotype: tinyGenome(si), Species: sp}
+			sp.Organisms = append(sp.Organisms, org)
+			pop.Organisms = append(pop.Organisms, org)
+			pop.Species = append(pop.Species, sp)
+		}
+		return pop
+	}
+	p1, p2 := mk(), mk()
+	for i := range p1.Organisms {
+		f := vFloat("fitness")
+		vAssume(vAnd(f >= 0.001, f <= 1000))
+		p1.Organisms[i].Fitness, p2.Organisms[i].Fitness = f, f
+	}
+	p1.purgeZeroOffspringSpecies(1)
+	p2.purgeZeroOffspringSpecies(1)
+	for i := range p1.Organisms {
+		vAssert(p1.Organisms[i].ExpectedOffspring == p2.Organisms[i].ExpectedOffspring, "C17: expected offspring are identical bit for bit in two runs on the same population")
+	}
+	vReach("end")
+}
